@@ -55,6 +55,7 @@ type scenario struct {
 // ------------------------------------------------------------------------------------------ scheduler
 
 type gstate struct {
+	born   int // registration epoch (a goroutine missing from a stack dump taken before it registered is not finished)
 	goid   int64
 	role   string
 	ch     chan struct{}
@@ -83,6 +84,8 @@ type run struct {
 	steps  int
 	cbDepth int
 	pctChange []int
+	epoch  int
+	inJS   bool
 	errors []string
 }
 
@@ -150,7 +153,8 @@ func (r *run) register(role string) *gstate {
 	id := curGoid()
 	r.mu.Lock()
 	defer r.mu.Unlock()
-	g := &gstate{goid: id, role: role, ch: make(chan struct{}, 1), prio: len(r.gs)}
+	r.epoch++
+	g := &gstate{goid: id, role: role, ch: make(chan struct{}, 1), prio: len(r.gs), born: r.epoch}
 	r.gs[id] = g
 	return g
 }
@@ -177,7 +181,8 @@ func hook(loop *eventloop.EventLoop, point string, obj interface{}) {
 		default:
 			role = fmt.Sprintf("U%d", id)
 		}
-		g = &gstate{goid: id, role: role, ch: make(chan struct{}, 1), prio: len(r.gs)}
+		r.epoch++
+		g = &gstate{goid: id, role: role, ch: make(chan struct{}, 1), prio: len(r.gs), born: r.epoch}
 		r.gs[id] = g
 	}
 	ev := fmt.Sprintf("Y,%s,%s,%s,%s,@%d", g.role, point, r.jobID(obj), r.snapshot(), r.us())
@@ -228,6 +233,9 @@ var stackBuf = make([]byte, 1<<20)
 func (r *run) settle() (parked []*gstate, allDone bool) {
 	deadline := time.Now().Add(3 * time.Second)
 	for {
+		r.mu.Lock()
+		epoch0 := r.epoch
+		r.mu.Unlock()
 		n := runtime.Stack(stackBuf, true)
 		for n == len(stackBuf) {
 			stackBuf = make([]byte, 2*len(stackBuf))
@@ -245,7 +253,11 @@ func (r *run) settle() (parked []*gstate, allDone bool) {
 		for id, g := range r.gs {
 			st, present := status[id]
 			if !present {
-				delete(r.gs, id)
+				if g.born <= epoch0 {
+					delete(r.gs, id) // finished
+				} else {
+					busy = true // registered after the dump was taken: look again
+				}
 				continue
 			}
 			live++
@@ -310,6 +322,9 @@ func (r *run) best(parked []*gstate) *gstate {
 func (r *run) callback(vm *goja.Runtime, id int, kind string, ref string) {
 	r.api("cbbegin", fmt.Sprint(id), kind, ref)
 	r.cbDepth++
+	prevJS := r.inJS
+	r.inJS = ref == "-" && kind != "runfn" // invoked through a JS function: a thrown value is a JS exception
+	defer func() { r.inJS = prevJS }()
 	defer func() {
 		r.cbDepth--
 		r.api("cbend", fmt.Sprint(id))
@@ -376,8 +391,10 @@ func (r *run) doAction(vm *goja.Runtime, a action) {
 		r.loop.StopNoWait()
 		r.api("ret", "snw")
 	case "throw":
-		r.api("throw")
-		panic(vm.ToValue("boom"))
+		if r.inJS { // a Go panic in a Go-level callback is outside the claim
+			r.api("throw")
+			panic(vm.ToValue("boom"))
+		}
 	}
 }
 
